@@ -465,6 +465,13 @@ def run(ctx):
             sig = {"class": "exception", "stream": "collapse", "operandCollapsesCompletely": complete_collapse(ghex, a, b)}
             why = "a fixed-precision overlay (%s) failed on valid input where one operand is a sub-cell polygon" % (t[2] if len(t) > 2 else "?")
         elif t[1] == "collapse-model":
+            if half_cell_input(ghex, a, b):
+                # an input ordinate on a rounding tie (k + 1/2 cells): which cell such a vertex belongs to is decided differently by
+                # PrecisionModel::makePrecise (the model of "all vertices round to one point") and by the hot pixels of the snap-rounding
+                # noder; the comparison of this INTERNAL prediction is outside the model's domain there (no clause of the property is at stake:
+                # the results of these cases are checked by the contract oracle of the prec-ops stream like all others)
+                corr["collapse"]["collapse_model_skipped_on_rounding_ties"] = corr["collapse"].get("collapse_model_skipped_on_rounding_ties", 0) + 1
+                continue
             sig = {"class": "collapse-model", "stream": "collapse"}
             why = "every vertex of a polygonal operand rounds to one grid point, yet EdgeNodingBuilder::hasEdgesFor reports surviving edges for it"
         else:
